@@ -146,6 +146,7 @@ theorem reprAddLargeSmall_fits_contract (B : Nat) (hB : 2 ≤ B) (m : Mode) (c :
       have hrabs : |rhs.signif| < ((B ^ p : Nat) : Int) := abs_lt_pow_of_digits B hB _ p hrd
       obtain ⟨hdpos, hllo, _⟩ := digitsI_spec B hB lhs.signif hl0
       unfold reprAddLargeSmall
+      try simp only [shlDigits_eq, shrDigits_eq]
       have hfar' : ¬ (p ≠ 0 ∧ dub rhs.signif + 1 < (lhs.exp - rhs.exp).toNat ∧
           dub rhs.signif + 1 + (p + if decide (sgn lhs.signif ≠ rs * sgn rhs.signif) = true then 1 else 0) <
             lhs.digits B + (lhs.exp - rhs.exp).toNat) := fun h => hfar h.2
